@@ -9,10 +9,10 @@ pub fn prop() -> Prop {
     Prop {
         id: "C18",
         level: "model_checking",
-        rule: "valid configurations = 7 option positions (--select, --filter, --split-by, --group-by, --sort-by, --set variable, --set macro) x 8 base expressions x 6 output styles (+ every pure function with a canonical argument list in every position, json style); corruptions (one fault each): truncation at EVERY byte offset that lies inside parentheses or a string, one '(' or ')' too many, unknown function name, arity min-1 / max+1 for every function, trailing garbage of 4 kinds, bad sort directions, malformed --set (no '=', empty name, empty macro name, duplicate, empty value), output options of another style, csv without selections / with grouping / with merge, --headers without selections, invalid enum and numeric option values; non-trivial = the uncorrupted configuration runs Ok and prints >= 1 byte; distinct by construction",
+        rule: "every corrupted configuration alone and next to each of 8 valid neighbour options (--take 0/1, --skip, --unique, --merge, --only-objects-and-arrays, a regex cache, --on-error=panic); valid configurations = 7 option positions (--select, --filter, --split-by, --group-by, --sort-by, --set variable, --set macro) x 8 base expressions x 6 output styles (+ every pure function with a canonical argument list in every position, json style); corruptions (one fault each): truncation at EVERY byte offset that lies inside parentheses or a string, one '(' or ')' too many, unknown function name, arity min-1 / max+1 for every function, trailing garbage of 4 kinds, bad sort directions, malformed --set (no '=', empty name, empty macro name, duplicate, empty value), output options of another style, csv without selections / with grouping / with merge, --headers without selections, invalid enum and numeric option values; non-trivial = the uncorrupted configuration runs Ok and prints >= 1 byte; distinct by construction",
         explanation: "each corrupted configuration is executed on a non-empty input; oracle: Err (or clap usage error), zero bytes on stdout, the stdin factory is never invoked",
         assumptions: COMMON_ASSUMPTIONS.to_vec(),
-        guards: vec!["truncation", "arity", "trailing-garbage", "set-malformed", "style-mismatch", "csv-without-selection", "valid-config-prints"],
+        guards: vec!["with-a-neighbour-option", "truncation", "arity", "trailing-garbage", "set-malformed", "style-mismatch", "csv-without-selection", "valid-config-prints"],
         budget_s: (100, 900),
         single_worker: false,
         run,
@@ -109,7 +109,25 @@ fn bad_cuts(e: &str) -> Vec<usize> {
     cuts
 }
 
+/// an invalid configuration stays invalid whatever valid options stand next to it: every case is also run
+/// with each of these neighbours (validation that is skipped or reordered because of another option shows here)
+const NEIGHBOURS: [&str; 8] = ["--take=0", "--take=1", "--skip=1", "--unique", "--merge", "--only-objects-and-arrays", "--regular-expression-cache-size=1", "--on-error=panic"];
+
 fn judge(ctx: &mut Ctx, kind: &str, detail: &str, args: Vec<String>, nontrivial: bool) {
+    judge_one(ctx, kind, detail, args.clone(), nontrivial);
+    for n in NEIGHBOURS {
+        let name = n.split('=').next().unwrap_or("");
+        if args.iter().any(|a| a.starts_with(name)) || (n == "--merge" && args.iter().any(|a| a.starts_with("--group-by"))) {
+            continue;
+        }
+        let mut a = args.clone();
+        a.push(n.to_string());
+        ctx.guard("with-a-neighbour-option");
+        judge_one(ctx, &format!("{kind} next to {n}"), detail, a, nontrivial);
+    }
+}
+
+fn judge_one(ctx: &mut Ctx, kind: &str, detail: &str, args: Vec<String>, nontrivial: bool) {
     let case = Case::owned(args, INPUT.to_vec());
     let o = ctx.run(&case);
     ctx.case_done();
